@@ -1616,3 +1616,86 @@ def close_ordering_ok(items, cause: str, sibling_items, extra_receives: int, chu
         except Exception:
             return False
     return not ps.isclosed()
+
+
+# ---------------------------------------------------------------------------------------
+# C18: channel ids and channels travelling over channels
+# ---------------------------------------------------------------------------------------
+
+def channel_transfer_ok(n_pre: int, nested: int, item) -> bool:
+    """Side A creates n_pre channels, then a fresh channel X and a carrier C, and sends X over C
+    (bare, or nested in a list / tuple-in-dict); B receives it.  X must arrive as a Channel of B with the
+    same id, identical to the object B already has for that id; items then flow over X; after closing,
+    both sides' tables are back to what they were."""
+    A = make_gateway(b"")
+    keep = [A.newchannel() for _ in range(n_pre)]
+    base_a = len(A._channelfactory._channels)
+    carrier = A.newchannel()
+    x = A.newchannel()
+    ids = [c.id for c in keep] + [carrier.id, x.id]
+    for i in range(len(ids)):
+        if ids[i] % 2 != 1:
+            return False                     # the initiating side hands out odd ids only
+        for j in range(i + 1, len(ids)):
+            if ids[i] == ids[j]:
+                return False
+    payload = x if nested == 0 else ([item, x] if nested == 1 else {"k": (x, item)})
+    carrier.send(payload)
+    x.send(item)
+    x.close()
+    carrier.close()
+    B = feed(A, startcount=2)
+    pc = B._channelfactory.new(carrier.id)
+    base_b = 0
+    own = B.newchannel()
+    if own.id % 2 != 0:
+        return False                         # the worker side hands out even ids only: never equal to an id of A
+    B._thread_receiver()
+    try:
+        got = recv_nb(pc)
+    except Exception:
+        return False
+    gx = got if nested == 0 else (got[1] if nested == 1 else got["k"][0])
+    if type(gx) is not gb.Channel or gx.id != x.id or gx.gateway is not B:
+        return False
+    if nested == 1 and got[0] != item:
+        return False
+    if nested == 2 and got["k"][1] != item:
+        return False
+    try:
+        if recv_nb(gx) != item:
+            return False
+    except Exception:
+        return False
+    try:
+        recv_nb(gx)
+        return False
+    except EOFError:
+        pass
+    # both sides forget finished conversations
+    if len(A._channelfactory._channels) != base_a or A._channelfactory._callbacks:
+        return False
+    if x.id in B._channelfactory._channels or carrier.id in B._channelfactory._channels or B._channelfactory._callbacks:
+        return False
+    return True
+
+
+def channel_id_roundtrip_ok(cid, nested: bool) -> bool:
+    """save_Channel / load_channel with a symbolic id: the receiving gateway's channel with exactly that id,
+    and the same object when the id is already registered."""
+    A = make_gateway(b"")
+    B = make_gateway(b"", startcount=2)
+    ch = gb.Channel(A, cid)
+    data = gb.dumps_internal([ch, ch] if nested else ch)
+    want = ref_obj([1])[:0] + ((b"K" + ref_int4(2) + ref_obj(0) + b"B" + ref_int4(cid) + b"P" + ref_obj(1) + b"B" + ref_int4(cid) + b"P") if nested else (b"B" + ref_int4(cid))) + b"Q"
+    if data != want:
+        return False
+    got = ch_loads(gb.loads_internal, data, B)
+    g0 = got[0] if nested else got
+    if type(g0) is not gb.Channel or g0.id != cid or g0.gateway is not B:
+        return False
+    if nested and got[1] is not g0:
+        return False
+    again = ch_loads(gb.loads_internal, gb.dumps_internal(ch), B)
+    ch.gateway = None
+    return again is g0
